@@ -56,5 +56,32 @@ def run(seed=0, rounds=400):
         fl = float(rng.choice([numpy.nan, numpy.inf, -numpy.inf, 0., 1., -2.5]))
         g = float(rng.choice([numpy.nan, numpy.inf, 0., 3.]))
         check('ieee-comparisons', (not (fl > g) if numpy.isnan(fl) or numpy.isnan(g) else True) and ((max(fl, g) == g) == (g > fl) or numpy.isnan(max(fl, g)) or fl == g), fl, g)
+        # -- C09 index partition (contracts/samplepart.py)
+        lo, hi = int(rng.randint(-3, 6)), int(rng.randint(-3, 6))
+        ar = numpy.arange(lo, hi)
+        check('arange(a,b)', len(ar) == max(hi - lo, 0) and all(ar[i] == lo + i for i in range(len(ar))), lo, hi)
+        c1, c2, stride = rng.randint(0, 4), rng.randint(0, 4), int(rng.randint(0, 6))
+        xa, ya = rng.randint(-5, 6, size=c1), rng.randint(-5, 6, size=c2)
+        outer = (xa[:, None] * stride + ya[None, :])
+        rav = outer.ravel()
+        check('column*n + row broadcasts to the outer grid; ravel is C order', outer.shape == (c1, c2) and len(rav) == c1 * c2 and all(rav[q] == xa[q // c2] * stride + ya[q % c2] for q in range(c1 * c2)), xa, ya, stride)
+        if n:
+            ind = rng.randint(-n, n, size=rng.randint(0, 5))
+            tk = numpy.take(x, ind)
+            check('take(a, ind)[k] = a[ind[k]] (negative entries wrap)', len(tk) == len(ind) and all(tk[k] == x[ind[k] + n if ind[k] < 0 else ind[k]] for k in range(len(ind))) and (x[ind] == tk).all(), x, ind)
+            for badi in (n, -n - 1):
+                try:
+                    numpy.take(x, numpy.array([badi]))
+                    check('take raises IndexError out of range', False, x, badi)
+                except IndexError:
+                    pass
+        cnts = rng.randint(0, 4, size=n).tolist()
+        cs = numpy.cumsum([0] + cnts)
+        check('cumsum([0]+counts)', len(cs) == n + 1 and cs[0] == 0 and all(cs[k + 1] == cs[k] + cnts[k] for k in range(n)), cnts)
+        if n:
+            e = rng.randint(0, n)
+            pair = cs[e:e + 2]
+            perm2 = rng.permutation(int(cs[-1]))
+            check('slice(*offsets[e:e+2]) selects the block', len(pair) == 2 and perm2[slice(*pair)].tolist() == [perm2[q] for q in range(cs[e], cs[e + 1])] and numpy.arange(*pair).tolist() == list(range(cs[e], cs[e + 1])), cnts, e)
     print('AXIOMS ' + json.dumps(dict(rounds=rounds, failures=fails[:5])))
     return not fails
